@@ -134,12 +134,12 @@ Example capacity_equations_needed : exists sys,
   the_system = Some sys /\
   Forall (fun c => exists k, c = cap_con eps t mods cells k) (firstn (List.length cells) (scons sys)) /\
   Feasible tol (drop_caps sys) asg_bad /\
-  Qcsum (map (fun m => sa (sol_of eps t mods cells asg_bad) (mname m) 2) mods) = qc 2 1.
+  Qcsum (map (fun m => sa (sol_of_asg eps t mods cells asg_bad) (mname m) 2) mods) = qc 2 1.
 Proof.
   destruct the_system as [sys|] eqn:E; [|vm_compute in E; discriminate].
   exists sys. split; [reflexivity|].
   assert (S : sys = mkSys (all_decls eps t die mods cells edges) (all_cons pow32 eps t mods areas cells edges)).
-  { unfold the_system, gen_system in E. destruct (fake_clash mods || zero_div mods areas edges); [discriminate|].
+  { unfold the_system, gen_system, gen_system_of in E. destruct (fake_clash mods || zero_div mods areas edges); [discriminate|].
     injection E as <-. reflexivity. }
   split; [|split].
   - rewrite S. cbn [scons]. unfold all_cons, cells, icells. cbn [indexed_from map List.length app firstn fst].
